@@ -53,7 +53,7 @@ func init() {
 		Rule: "case = program with 3-10 options of all 12 kinds, 0-3 aliases each, env bindings and SetCalled, argv mentioning a random subset with a random key (alias, unique abbreviation, short/long) per occurrence; " +
 			"distinct = (modes, item shapes); non-trivial = at least one option is used through an alias or abbreviation and at least one declared option is left untouched" + genDims,
 		Assumptions: []string{"environment variables VERIF_E* are set only by the single-threaded worker before definition"},
-		Cases:       func(tier string) int { return tierN(tier, 20000, 3000000) },
+		Cases:       func(tier string) int { return tierN(tier, 60000, 3000000) },
 		Run: func(seed uint64, idx int, tier string) *fw.Result {
 			r := CaseRng(seed, "C06", idx)
 			pc := DefaultCfg()
